@@ -6,10 +6,20 @@ def kind_of(name):
   if name.startswith('B['): return 'true_loop' if ('true' in name or 'ring' in name) else 'false_loop'
   return 'acyclic'
 
+def _no_graphviz():
+  # dump_dag (debug picture of a cyclic graph) renders to a fixed file under /tmp and opens a viewer: in the checks it is
+  # made to fail the way it does on a headless machine (DESIGN.md 3.1: opaque, may raise), without touching /tmp
+  try:
+    import graphviz
+    def render(self,*a,**k): raise FileNotFoundError("viewer not available (rendering disabled inside /verif checks)")
+    graphviz.Digraph.render=render
+  except Exception: pass
+
 def _job(a):
   check,fam,name,body,repo,seed=a
   if repo not in sys.path: sys.path.insert(0,repo)
   from zoo import designs, simcheck
+  _no_graphviz()
   t0=time.time()
   try:
     Top,src=designs.load(name,body)
